@@ -8,7 +8,7 @@ use std::panic::{catch_unwind, AssertUnwindSafe};
 mod dump;
 mod hist;
 
-fn dec(s: &str) -> String {
+pub(crate) fn dec(s: &str) -> String {
     if s == "-" {
         return String::new();
     }
@@ -17,7 +17,7 @@ fn dec(s: &str) -> String {
         .collect()
 }
 
-fn enc(s: &str) -> String {
+pub(crate) fn enc(s: &str) -> String {
     if s.is_empty() {
         return "-".to_string();
     }
@@ -31,7 +31,7 @@ fn enc(s: &str) -> String {
     out
 }
 
-fn err(e: &Error) -> &'static str {
+pub(crate) fn err(e: &Error) -> &'static str {
     match e {
         Error::Internal => "E:Internal",
         Error::InvalidFlags(_) => "E:InvalidFlags",
@@ -41,7 +41,7 @@ fn err(e: &Error) -> &'static str {
     }
 }
 
-fn entry(out: &mut String, e: &MatchEntry) {
+pub(crate) fn entry(out: &mut String, e: &MatchEntry) {
     match e {
         MatchEntry::String(s) => {
             out.push_str("S(");
